@@ -3,16 +3,499 @@
 
 usage: extract.py <repo> <outdir>
 (fragments are added as the properties that need them come online)
+
+DropPlan.lean (C08, C09): for each of the eleven drivers the struct field order (with a coarse
+kind per field), the `queue_unset` calls of its `impl Drop`, and the constructor skeleton: the
+statements of `new()` in source order with, per statement, the bound local and the ordered list of
+events (begin_init, config reads, VirtQueue::new with its three flag arguments classified,
+OwningQueue::new, Dma::new, boxed buffers, posting loops, notify, finish_init, the struct literal).
+Technique: comment / string stripping, brace matching and a fixed table of regular expressions.
+Anything the table does not cover makes the extractor fail (exit code 1), which `check` reports as
+a broken obligation.
 """
 import os
+import re
 import sys
+
+
+class ExtractError(Exception):
+    pass
+
+
+# ---------------------------------------------------------------- lexical helpers
+
+def strip_comments_and_strings(s):
+    """remove // and /* */ comments; blank out the contents of string and char literals"""
+    out = []
+    i, n = 0, len(s)
+    while i < n:
+        c = s[i]
+        if s.startswith("//", i):
+            while i < n and s[i] != "\n":
+                i += 1
+        elif s.startswith("/*", i):
+            depth = 1
+            i += 2
+            while i < n and depth:
+                if s.startswith("/*", i):
+                    depth += 1
+                    i += 2
+                elif s.startswith("*/", i):
+                    depth -= 1
+                    i += 2
+                else:
+                    if s[i] == "\n":
+                        out.append("\n")
+                    i += 1
+        elif c == '"':
+            out.append('"')
+            i += 1
+            while i < n and s[i] != '"':
+                if s[i] == "\\":
+                    i += 1
+                if i < n and s[i] == "\n":
+                    out.append("\n")
+                i += 1
+            out.append('"')
+            i += 1
+        elif c == "'" and re.match(r"'(\\.|[^\\'])'", s[i:i + 4]):
+            m = re.match(r"'(\\.|[^\\'])'", s[i:i + 4])
+            out.append("' '")
+            i += m.end()
+        else:
+            out.append(c)
+            i += 1
+    return "".join(out)
+
+
+OPEN = {"(": ")", "[": "]", "{": "}"}
+CLOSE = {")", "]", "}"}
+
+
+def match_close(s, i):
+    """s[i] is an opening bracket; index of the matching closing bracket"""
+    stack = []
+    for j in range(i, len(s)):
+        c = s[j]
+        if c in OPEN:
+            stack.append(OPEN[c])
+        elif c in CLOSE:
+            if not stack or stack.pop() != c:
+                raise ExtractError("unbalanced brackets")
+            if not stack:
+                return j
+    raise ExtractError("unbalanced brackets")
+
+
+def split_top(s, sep=",", angles=False):
+    """split at top-level separators (`angles`: also treat < > as brackets, for type contexts)"""
+    parts, depth, cur = [], 0, []
+    for i, c in enumerate(s):
+        if c in OPEN or (angles and c == "<"):
+            depth += 1
+        elif c in CLOSE or (angles and c == ">" and s[i - 1:i] != "-"):
+            depth -= 1
+        if c == sep and depth == 0:
+            parts.append("".join(cur))
+            cur = []
+        else:
+            cur.append(c)
+    if "".join(cur).strip():
+        parts.append("".join(cur))
+    return [p.strip() for p in parts]
+
+
+def statements(body):
+    """top-level statements of a block body: (text, start offset)"""
+    res = []
+    i, n = 0, len(body)
+    start = 0
+    depth = 0
+    while i < n:
+        c = body[i]
+        if c in OPEN:
+            j = match_close(body, i)
+            # a block-like expression statement ends at its closing brace
+            head = body[start:i].strip()
+            if c == "{" and re.match(r"(for|while|loop|if|match|unsafe)\b", head) and not head.startswith("let"):
+                k = j + 1
+                # `if … {} else {}` chains
+                m = re.match(r"\s*else\b", body[k:])
+                if m:
+                    i = k + m.end()
+                    continue
+                res.append((body[start:k], start))
+                start = k
+                i = k
+                continue
+            i = j + 1
+            continue
+        if c == ";":
+            res.append((body[start:i + 1], start))
+            start = i + 1
+        i += 1
+    if body[start:].strip():
+        res.append((body[start:], start))
+    return [(t.strip(), o) for t, o in res if t.strip()]
+
+
+# ---------------------------------------------------------------- the eleven drivers
+
+DRIVERS = [
+    # short name, file, struct, extra files searched for constants
+    ("blk", "src/device/blk.rs", "VirtIOBlk", []),
+    ("console", "src/device/console.rs", "VirtIOConsole", []),
+    ("gpu", "src/device/gpu/mod.rs", "VirtIOGpu", []),
+    ("input", "src/device/input.rs", "VirtIOInput", []),
+    ("netraw", "src/device/net/dev_raw.rs", "VirtIONetRaw", ["src/device/net/mod.rs"]),
+    ("net", "src/device/net/dev.rs", "VirtIONet", ["src/device/net/mod.rs", "src/device/net/dev_raw.rs"]),
+    ("rng", "src/device/rng.rs", "VirtIORng", []),
+    ("rtc", "src/device/rtc.rs", "VirtIORtc", []),
+    ("socket", "src/device/socket/vsock.rs", "VirtIOSocket", []),
+    ("sound", "src/device/sound.rs", "VirtIOSound", []),
+    ("p9", "src/device/virtio_9p.rs", "VirtIO9p", []),
+]
+
+FIELD_KINDS = [
+    (r"^T$", "transport"),
+    (r"^VirtQueue\s*<", "queue"),
+    (r"^OwningQueue\s*<", "owning"),
+    (r"^Option\s*<\s*Dma\s*<", "dmaOpt"),
+    (r"^Dma\s*<", "dma"),
+    (r"^Box\s*<", "boxed"),
+    (r"^VirtIONetRaw\s*<", "inner"),
+    (r"^\[\s*Option\s*<\s*RxBuffer\s*>", "rxbufs"),
+]
+
+FEATURE_BITS = {"RING_INDIRECT_DESC": 28, "RING_EVENT_IDX": 29, "ACCESS_PLATFORM": 33}
+
+
+def const_value(name, texts):
+    if re.fullmatch(r"\d+", name):
+        return int(name)
+    for t in texts:
+        m = re.search(r"\bconst\s+" + re.escape(name) + r"\s*:\s*\w+\s*=\s*(\d+)\s*;", t)
+        if m:
+            return int(m.group(1))
+    raise ExtractError(f"cannot resolve constant {name}")
+
+
+def classify_flag(expr, body):
+    expr = expr.strip()
+    if expr in ("true", "false"):
+        return f".const {expr}"
+    m = re.fullmatch(r"\w+\s*\.\s*contains\s*\(\s*\w+\s*::\s*(\w+)\s*\)", expr)
+    if m:
+        if m.group(1) not in FEATURE_BITS:
+            raise ExtractError(f"queue flag taken from unexpected feature {m.group(1)}")
+        return f".neg {FEATURE_BITS[m.group(1)]}"
+    if re.fullmatch(r"\w+", expr):
+        # a local: look at its initialiser
+        mm = re.search(r"\blet\s+(?:mut\s+)?" + re.escape(expr) + r"\s*(?::[^=;]+)?=\s*([^;]+);", body)
+        if mm:
+            return classify_flag(mm.group(1), "")
+    raise ExtractError(f"cannot classify queue flag argument `{expr}`")
+
+
+def followed_by_try(text, close):
+    return bool(re.match(r"\s*\?", text[close + 1:]))
+
+
+def lstr(s):
+    return '"' + s + '"'
+
+
+def lopt(s):
+    return "none" if s is None else f"(some {lstr(s)})"
+
+
+def nopt(n):
+    return "none" if n is None else f"(some {n})"
+
+
+def events_of(text, body, consts, resolve):
+    """ordered events of one statement"""
+    evs = []  # (position, lean term)
+    claimed_try = set()
+
+    def call(m_end_open):
+        close = match_close(text, m_end_open)
+        t = followed_by_try(text, close)
+        if t:
+            claimed_try.add(close + 1 + re.match(r"\s*", text[close + 1:]).end())
+        return close, t
+
+    def b(x):
+        return "true" if x else "false"
+
+    for m in re.finditer(r"\.\s*begin_init\s*\(", text):
+        evs.append((m.start(), ".beginInit"))
+    for m in re.finditer(r"\.\s*finish_init\s*\(\s*\)", text):
+        evs.append((m.start(), ".finishInit"))
+    for m in re.finditer(r"\bVirtQueue\s*::\s*new\s*\(", text):
+        close, t = call(m.end() - 1)
+        args = split_top(text[m.end():close])
+        if len(args) != 5:
+            raise ExtractError(f"VirtQueue::new with {len(args)} arguments")
+        q = const_value(args[1], consts)
+        fl = [classify_flag(a, body) for a in args[2:5]]
+        # the event happens when the call returns: position = closing parenthesis
+        evs.append((close, f".queueNew {q} ({fl[0]}) ({fl[1]}) ({fl[2]}) {b(t)}"))
+    for m in re.finditer(r"\bOwningQueue\s*::\s*new\s*\(", text):
+        close, t = call(m.end() - 1)
+        arg = text[m.end():close].strip()
+        moved = resolve(arg) if re.fullmatch(r"\w+", arg) else None
+        if moved is None and not re.match(r"VirtQueue\s*::\s*new\s*\(", arg):
+            raise ExtractError(f"OwningQueue::new with unexpected argument `{arg[:40]}`")
+        evs.append((close, f".owningNew {nopt(moved)} {b(t)}"))
+    for m in re.finditer(r"\bDma\s*::\s*new\s*\(", text):
+        close, t = call(m.end() - 1)
+        evs.append((close, f".dmaNew {b(t)}"))
+    for m in re.finditer(r"\bVirtIONetRaw\s*::\s*new\s*\(", text):
+        close, t = call(m.end() - 1)
+        arg = text[m.end():close].strip()
+        if not re.fullmatch(r"\w+", arg):
+            raise ExtractError(f"VirtIONetRaw::new with unexpected argument `{arg[:40]}`")
+        evs.append((close, f".innerNew {resolve(arg)} {b(t)}"))
+    cfg_spans = []
+    for m in re.finditer(r"\b(?:read_config\s*!|\w+\s*\.\s*read_config_space(?:\s*::\s*<[^>]*>)?|read_mount_tag|\w+\s*\.\s*read_consistent)\s*\(", text):
+        # reads nested in the closure of an enclosing read_consistent(..) belong to that one read
+        if any(a < m.start() < z for a, z in cfg_spans):
+            continue
+        close, t = call(m.end() - 1)
+        cfg_spans.append((m.end() - 1, close))
+        evs.append((close, f".cfgRead {b(t)}"))
+    for m in re.finditer(r"\bBox\s*::\s*new\s*\(|\bnew_box_zeroed(?:_with_elems)?\s*\(", text):
+        evs.append((m.start(), ".boxNew"))
+    for m in re.finditer(r"\b(\w+)\s*\.\s*(add|receive_begin|poll_retrieve)\s*\(", text):
+        close, t = call(m.end() - 1)
+        # a posting *method* of the driver may notify by itself: look into its body
+        notifies = None
+        if m.group(2) != "add":
+            fm = None
+            for ctext in consts:
+                fm = re.search(r"\bfn\s+" + m.group(2) + r"\s*(?:<[^>]*>)?\s*\([^{]*\{", ctext)
+                if fm:
+                    fb = ctext[fm.end():match_close(ctext, fm.end() - 1)]
+                    ns = re.findall(r"\.\s*notify\s*\(\s*(\w+)\s*\)", fb)
+                    if len(ns) > 1:
+                        raise ExtractError(f"{m.group(2)} notifies more than once")
+                    if ns:
+                        notifies = const_value(ns[0], consts)
+                    break
+            if not fm:
+                raise ExtractError(f"posting method {m.group(2)} not found")
+        evs.append((close, f".post {resolve(m.group(1))} {b(t)} {nopt(notifies)}"))
+    for m in re.finditer(r"\.\s*notify\s*\(", text):
+        close = match_close(text, m.end() - 1)
+        q = const_value(text[m.end():close].strip(), consts)
+        evs.append((close, f".notify {q}"))
+    for m in re.finditer(r"\.\s*queue_unset\s*\(", text):
+        raise ExtractError("queue_unset inside a constructor")
+    # any other `?` is an unknown fallible operation: keep its position
+    for m in re.finditer(r"\?", text):
+        if m.start() not in claimed_try and not any(a < m.start() < z for a, z in cfg_spans):
+            evs.append((m.start(), ".other true"))
+    evs.sort(key=lambda e: e[0])
+    # a `?` inside a closure passed to read_consistent belongs to the closure; nested config reads
+    # are kept (adjacent config reads are merged by the model)
+    return evs
+
+
+def extract_driver(repo, short, path, struct, extra):
+    raw = open(os.path.join(repo, path)).read()
+    s = strip_comments_and_strings(raw)
+    consts = [s] + [strip_comments_and_strings(open(os.path.join(repo, e)).read()) for e in extra]
+    m = re.search(r"\bpub\s+struct\s+" + struct + r"\b[^{;]*\{", s)
+    if not m:
+        raise ExtractError(f"{path}: struct {struct} not found")
+    close = match_close(s, m.end() - 1)
+    fields = []
+    for part in split_top(s[m.end():close], angles=True):
+        part = re.sub(r"#\[[^\]]*\]", "", part).strip()
+        if not part:
+            continue
+        fm = re.match(r"(?:pub(?:\s*\([^)]*\))?\s+)?(\w+)\s*:\s*(.+)$", part, flags=re.S)
+        if not fm:
+            raise ExtractError(f"{path}: cannot parse field `{part[:40]}`")
+        ty = fm.group(2).strip()
+        kind = "plain"
+        for pat, k in FIELD_KINDS:
+            if re.match(pat, ty):
+                kind = k
+                break
+        fields.append((fm.group(1), kind))
+    if not fields:
+        raise ExtractError(f"{path}: struct {struct} has no fields")
+    # impl Drop
+    unset = []
+    has_drop = False
+    dm = re.search(r"\bimpl\s*<[^{]*?\bDrop\s+for\s+" + struct + r"\b[^{]*\{", s, flags=re.S)
+    if dm:
+        has_drop = True
+        dclose = match_close(s, dm.end() - 1)
+        dbody = s[dm.end():dclose]
+        fm = re.search(r"\bfn\s+drop\s*\(\s*&mut\s+self\s*\)\s*\{", dbody)
+        if not fm:
+            raise ExtractError(f"{path}: Drop impl without fn drop")
+        fclose = match_close(dbody, fm.end() - 1)
+        fb = dbody[fm.end():fclose]
+        for st, _ in statements(fb):
+            um = re.fullmatch(r"self\s*\.\s*transport\s*\.\s*queue_unset\s*\(\s*(\w+)\s*\)\s*;", st)
+            if not um:
+                raise ExtractError(f"{path}: unexpected statement in Drop: `{st[:60]}`")
+            unset.append(const_value(um.group(1), consts))
+    # constructor
+    im = re.search(r"\bimpl\s*<[^{]*?>\s*" + struct + r"\s*<[^{]*\{", s, flags=re.S)
+    if not im:
+        raise ExtractError(f"{path}: inherent impl of {struct} not found")
+    iclose = match_close(s, im.end() - 1)
+    ibody = s[im.end():iclose]
+    nm = re.search(r"\bpub\s+fn\s+new\s*\(([^)]*)\)\s*->\s*[^{]*\{", ibody)
+    if not nm:
+        raise ExtractError(f"{path}: {struct}::new not found")
+    params = []
+    for p in split_top(nm.group(1), angles=True):
+        pm = re.match(r"(?:mut\s+)?(\w+)\s*:", p)
+        if not pm:
+            raise ExtractError(f"{path}: cannot parse parameter `{p}`")
+        params.append(pm.group(1))
+    nclose = match_close(ibody, nm.end() - 1)
+    nbody = ibody[nm.end():nclose]
+    stmts = []
+    local_names = list(params)
+    cur = {p: i for i, p in enumerate(params)}
+
+    def resolve(name):
+        if name not in cur:
+            raise ExtractError(f"{path}: `{name}` is not a local of new()")
+        return cur[name]
+
+    for st, _ in statements(nbody):
+        bind = None
+        lm = re.match(r"let\s+(?:mut\s+)?(\w+)\s*(?::[^=]+)?=", st)
+        if re.match(r"let\b", st) and not lm:
+            raise ExtractError(f"{path}: unsupported let pattern `{st[:50]}`")
+        evs = [e for _, e in events_of(st, nbody, consts, resolve)]
+        # the struct literal
+        if re.search(r"\b(" + struct + r"|Self)\s*\{", st):
+            lit = re.search(r"\b(" + struct + r"|Self)\s*\{", st)
+            lclose = match_close(st, lit.end() - 1)
+            inits = {}
+            for part in split_top(st[lit.end():lclose]):
+                pm = re.match(r"(\w+)\s*(?::\s*(.+))?$", part, flags=re.S)
+                if not pm:
+                    raise ExtractError(f"{path}: cannot parse struct literal entry `{part[:40]}`")
+                src = pm.group(2).strip() if pm.group(2) else pm.group(1)
+                inits[pm.group(1)] = cur[src] if src in cur else None
+            if sorted(inits) != sorted(f for f, _ in fields):
+                raise ExtractError(f"{path}: struct literal fields differ from the struct definition")
+            evs.append(".build [" + ", ".join(nopt(inits[f]) for f, _ in fields) + "]")
+        if lm:
+            # the new binding becomes visible after its initialiser has been evaluated
+            bind = len(local_names)
+            local_names.append(lm.group(1))
+            cur[lm.group(1)] = bind
+        if evs or bind is not None:
+            stmts.append((bind, evs))
+    if not any(".build" in e for _, evs in stmts for e in evs):
+        raise ExtractError(f"{path}: struct literal of {struct} not found in new()")
+    return {"short": short, "struct": struct, "fields": fields, "unset": unset, "has_drop": has_drop, "params": params, "stmts": stmts, "locals": local_names}
+
+
+HEADER = '''/-! GENERATED by tools/extract.py from the driver sources of /repo — do not edit.
+Struct field order, `impl Drop` calls and constructor skeleton of every driver. -/
+namespace VirtioVerif.Generated.DropPlan
+
+/-- where a `VirtQueue::new` flag argument comes from -/
+inductive Flag
+  | neg (bit : Nat)       -- `negotiated.contains(<feature bit>)`
+  | const (b : Bool)
+deriving DecidableEq, Repr
+
+inductive FieldKind
+  | transport | queue | owning | dmaOpt | dma | boxed | inner | rxbufs | plain
+deriving DecidableEq, Repr
+
+/-- constructor events, in evaluation order; `fallible` = the call is followed by `?` -/
+inductive CEv
+  | beginInit
+  | cfgRead (fallible : Bool)
+  | queueNew (q : Nat) (ind ev ap : Flag) (fallible : Bool)
+  | owningNew (moved : Option Nat) (fallible : Bool)
+  | dmaNew (fallible : Bool)
+  | boxNew
+  | post (var : Nat) (fallible : Bool) (notifies : Option Nat)   -- posts driver-owned buffers; a posting method may notify
+  | notify (q : Nat)
+  | finishInit
+  | innerNew (moved : Nat) (fallible : Bool)
+  | build (inits : List (Option Nat))
+  | other (fallible : Bool)
+deriving DecidableEq, Repr
+
+/-- locals are numbered in declaration order (parameters first); a shadowing `let` gets a new number -/
+structure Stmt where
+  bind : Option Nat
+  evs : List CEv
+deriving DecidableEq, Repr
+
+structure Driver where
+  name : String
+  struct : String
+  fieldNames : List String
+  fields : List FieldKind
+  hasDrop : Bool
+  dropUnset : List Nat
+  localNames : List String
+  nparams : Nat
+  body : List Stmt
+deriving DecidableEq, Repr
+
+'''
+
+
+def render(ds):
+    out = [HEADER]
+    for d in ds:
+        out.append(f"def {d['short']} : Driver where\n")
+        out.append(f"  name := {lstr(d['short'])}\n  struct := {lstr(d['struct'])}\n")
+        out.append("  fieldNames := [" + ", ".join(lstr(f) for f, _ in d["fields"]) + "]\n")
+        out.append("  fields := [" + ", ".join(f".{k}" for _, k in d["fields"]) + "]\n")
+        out.append(f"  hasDrop := {'true' if d['has_drop'] else 'false'}\n")
+        out.append("  dropUnset := [" + ", ".join(str(u) for u in d["unset"]) + "]\n")
+        out.append("  localNames := [" + ", ".join(lstr(p) for p in d["locals"]) + "]\n")
+        out.append(f"  nparams := {len(d['params'])}\n")
+        out.append("  body := [\n")
+        rows = []
+        for bind, evs in d["stmts"]:
+            rows.append(f"    ⟨{nopt(bind)}, [" + ", ".join("CEv" + e for e in evs) + "]⟩")
+        out.append(",\n".join(rows) + "]\n\n")
+    out.append("def all : List Driver := [" + ", ".join(d["short"] for d in ds) + "]\n\n")
+    out.append("end VirtioVerif.Generated.DropPlan\n")
+    return "".join(out)
+
+
+def write_if_changed(path, content):
+    if os.path.exists(path) and open(path).read() == content:
+        return False
+    with open(path, "w") as f:
+        f.write(content)
+    return True
 
 
 def main():
     repo, outdir = sys.argv[1], sys.argv[2]
     os.makedirs(outdir, exist_ok=True)
-    print("extract: ok")
+    try:
+        ds = [extract_driver(repo, *d) for d in DRIVERS]
+    except (ExtractError, OSError) as e:
+        # leave a file that cannot satisfy the theorems rather than a stale one
+        print(f"extract: FAILED: {e}")
+        return 1
+    changed = write_if_changed(os.path.join(outdir, "DropPlan.lean"), render(ds))
+    print("extract: ok" + (" (DropPlan.lean rewritten)" if changed else ""))
+    return 0
 
 
 if __name__ == "__main__":
-    main()
+    sys.exit(main())
